@@ -379,7 +379,11 @@ impl<'a> Audit<'a> {
         for (n, (name, _)) in root.children.iter().zip(expect.iter()) {
             if let (Some(s), Some(nm)) = (n.status, &n.name) {
                 if strip_file(nm) == *name {
-                    self.top_status.entry(name.clone()).or_insert(s);
+                    // several rules of one name: the first definition that is not SKIP decides
+                    let e = self.top_status.entry(name.clone()).or_insert(s);
+                    if *e == St::Skip {
+                        *e = s;
+                    }
                 }
             }
         }
@@ -476,7 +480,7 @@ fn leaf(s: St) -> Clause {
         St::Skip => bin(vec![key("l"), Part::Filter(vec![vec![bin(vec![key("x")], BinOp::Eq, false, i(9))]]), key("x")], BinOp::Eq, false, i(1)),
     }
 }
-const SITES: [&str; 9] = ["rule-body", "rule-when", "when-body", "when-cond", "block-all", "block-some", "type-block", "type-when", "filter-body"];
+const SITES: [&str; 11] = ["rule-body", "rule-when", "when-body", "when-cond", "block-all", "block-some", "type-block", "type-when", "filter-body", "call-body", "call-body-msg"];
 
 fn site_program(site: &str, cnf: &Cnf) -> File {
     let pass = || vec![vec![leaf(St::Pass)]];
@@ -494,6 +498,13 @@ fn site_program(site: &str, cnf: &Cnf) -> File {
         "type-block" => rule("r", vec![vec![Clause::TypeBlock { tname: "AWS::X::Y".into(), cond: None, lets: vec![], body: cnf.clone() }]]),
         "type-when" => rule("r", vec![vec![Clause::TypeBlock { tname: "AWS::X::Y".into(), cond: Some(cnf.clone()), lets: vec![], body: pass() }]]),
         "filter-body" => rule("r", vec![vec![un(vec![key("f"), Part::Filter(cnf.clone())], UnOp::Empty, true)]]),
+        "call-body" | "call-body-msg" => {
+            // a parameterised rule whose body is the CNF, called from r (with and without a custom message); the grammar
+            // has no `when` on parameterised rules
+            let pr = Rule { name: "p".into(), params: Some(vec!["v".into()]), when: None, lets: vec![], body: cnf.clone() };
+            let call = Clause::Call { not: false, name: "p".into(), args: vec![Arg::Lit(i(1))], msg: if site.ends_with("-msg") { Some("call site message".into()) } else { None } };
+            return File { lets: vec![], rules: vec![pr, rule("r", vec![vec![call]])], default: vec![] };
+        }
         _ => unreachable!(),
     };
     file1(r)
@@ -627,6 +638,28 @@ pub fn run(tier: &str) -> i32 {
             }
         }
     }
+    // a name defined twice (the first definition that is not SKIP decides), referenced before, between and after
+    for s1 in sts {
+        for s2 in sts {
+            for pos in 0..3usize {
+                for not in [false, true] {
+                    let mut rules = vec![rule("r0", vec![vec![leaf(s1)]]), rule("r0", vec![vec![leaf(s2)]])];
+                    rules.insert(pos, rule("u", vec![vec![named("r0").with_not(not)]]));
+                    let f = File { lets: vec![], rules, default: vec![] };
+                    let t = print_file(&f);
+                    fl += 1;
+                    if let Some((_, rs)) = audit_state(&f, &t, &dj, &mut acc, "named-twice") {
+                        let nm = if s1 != St::Skip { s1 } else { s2 };
+                        let want = if (nm == St::Pass) != not { St::Pass } else { St::Fail };
+                        let r = rs.iter().find(|(n, _)| n == "u").map(|(_, s)| *s);
+                        if r != Some(want) {
+                            acc.violate("combinator:named-twice", format!("r0 defined as {:?} then {:?}, `{}r0` at position {} gives {:?}, expected {:?}", s1, s2, if not { "not " } else { "" }, pos, r, want), json!({"kind":"lib","rules":t,"data":dj,"expected":format!("u={}", want.txt()),"observed":format!("{:?}", r)}));
+                        }
+                    }
+                }
+            }
+        }
+    }
     rep.states += fl;
     rep.transitions += fl;
 
@@ -680,6 +713,8 @@ pub fn extended_pool() -> Vec<File> {
         let pr = Rule { name: "p".into(), params: Some(vec!["v".into()]), when: None, lets: vec![], body: vec![vec![bin(vec![Part::Var("v".into())], BinOp::Eq, false, i(1))], vec![leaf(St::Pass), leaf(St::Fail)]] };
         let call = Clause::Call { not: false, name: "p".into(), args: vec![arg.clone()], msg: None };
         out.push(File { lets: vec![], rules: vec![pr.clone(), rule("r", vec![vec![call.clone()]])], default: vec![] });
+        let callm = Clause::Call { not: false, name: "p".into(), args: vec![arg.clone()], msg: Some("m".into()) };
+        out.push(File { lets: vec![], rules: vec![pr.clone(), rule("r", vec![vec![callm.clone()], vec![leaf(St::Pass)]])], default: vec![] });
         out.push(File { lets: vec![], rules: vec![pr.clone(), rule("r", vec![vec![leaf(St::Fail), call.clone()], vec![leaf(St::Pass)]])], default: vec![] });
     }
     // function-valued lets
